@@ -78,8 +78,10 @@ class SamplingCartesianGridLOS(Model):
             distances=self.distances,
             shape=jnp.array(shape),
         )
+        # one line integral per LOS: drop the trailing coordinate axis
+        out_shape = jnp.broadcast_shapes(self.start.shape, self.end.shape)[:-1]
         super().__init__(
-            domain=ShapeWithDtype(shape, dtype), target=ShapeWithDtype(end.shape, dtype)
+            domain=ShapeWithDtype(shape, dtype), target=ShapeWithDtype(out_shape, dtype)
         )
 
     def __call__(self, x):
